@@ -147,12 +147,23 @@ impl<T: KInt> Mirror<T> {
     }
 
     pub fn from_state(s: &FileState) -> Mirror<T> {
+        Self::from_state_rot(s, 0)
+    }
+
+    /// rows stored in key order rotated by `rot` (row order carries no meaning; varying it exercises
+    /// position-dependent code deterministically)
+    pub fn from_state_rot(s: &FileState, rot: usize) -> Mirror<T> {
         let n = s.table.names.len();
         let nr = s.table.rows.len();
         let mut variants = Array2::<u8>::zeros((nr, n));
         let mut kmers = Vec::with_capacity(nr);
-        for (i, (key, row)) in s.table.rows.iter().enumerate() {
+        let mut counts = Vec::with_capacity(nr);
+        let rows: Vec<(&String, &Vec<u8>)> = s.table.rows.iter().collect();
+        for i in 0..nr {
+            let src = if nr == 0 { 0 } else { (i + rot) % nr };
+            let (key, row) = rows[src];
             kmers.push(T::from_u128(pack(key.as_bytes())));
+            counts.push(s.counts[src]);
             for (j, b) in row.iter().enumerate() {
                 variants[[i, j]] = *b;
             }
@@ -163,7 +174,7 @@ impl<T: KInt> Mirror<T> {
             names: s.table.names.clone(),
             split_kmers: kmers,
             variants,
-            variant_count: s.counts.clone(),
+            variant_count: counts,
             ska_version: s.version.clone(),
             k_bits: s.k_bits,
         }
@@ -178,10 +189,22 @@ impl FileState {
         FileState { table, counts, k_bits, version: "0.4.0".to_string() }
     }
     pub fn write(&self, path: &str) {
+        self.write_rot(path, 0)
+    }
+    pub fn write_rot(&self, path: &str, rot: usize) {
         if self.k_bits == 64 {
-            write_file(&Mirror::<u64>::from_state(self), path)
+            write_file(&Mirror::<u64>::from_state_rot(self, rot), path)
         } else {
-            write_file(&Mirror::<u128>::from_state(self), path)
+            write_file(&Mirror::<u128>::from_state_rot(self, rot), path)
+        }
+    }
+    /// a rotation derived from the content, so that the same state is always written the same way
+    pub fn natural_rot(&self) -> usize {
+        let n = self.table.rows.len();
+        if n == 0 {
+            0
+        } else {
+            (crate::explore::hash64(&self.table.rows.keys().collect::<Vec<_>>()) % n as u64) as usize
         }
     }
     pub fn read(path: &str) -> Result<FileState, String> {
